@@ -50,6 +50,14 @@ Sensitivity (quick tier, seed 1, scratch copy of /repo/tornado, one mutant at a 
      back-references beyond the smaller window / into the previous message)               -> C14.messages_received
      (systematic since the deterministic part `deflate_grid`: 2 reference-peer set-ups x 64 parameter combinations x 6
      far-back-referencing messages in both directions; before that the Hypothesis part caught it at some seeds only)
+  M12 _accept_connection: the branch that declines an unusable permessage-deflate offer no longer resets _compressor /
+     _decompressor: after an offer declined for a CLIENT-side parameter (client_max_window_bits=7/16/abc) the handshake says
+     "no extension" but every message the server writes is deflated with RSV1 set
+                                                            -> C14.tornado_frames_undecodable (rsv1_without_extension), seeds 1-3
+     New dimension `decline` (ref_to_server): 17 offers a server must decline -- bad/out-of-range/malformed window bits on
+     either side, unknown valued and value-less parameters, duplicates, two declined offers, a declined offer followed by an
+     acceptable one, an unknown extension -- followed by the ordinary exchange under whatever the 101 response agreed;
+     deterministic part `decline_grid` (17 offers x 2 compression option sets, 6 operations in both directions).
   M11 _receive_frame: the max_message_size test lost its `not opcode_is_control` guard (a ping/pong between fragments is
      sized as its payload + the bytes buffered so far) -> C14.messages_received (the legal message and everything after it
      are lost, 1009 sent), seeds 1-3.  max_message_size is now a generated dimension of `main` (None / 300 / 1024 / 4096; with
@@ -100,6 +108,25 @@ SHARDS = 16
 
 # ------------------------------------------------------------------------------------------- generators
 LENS = [0, 1, 125, 126, 127, 65535, 65536, 70000]
+# permessage-deflate offers a server must DECLINE (RFC 7692 7.1: unknown parameter, value out of range or malformed,
+# a window zlib cannot produce) -- alone, repeated, or followed by an acceptable offer.  Whatever the 101 response says
+# is the agreement: usually "no extension", so nothing Tornado sends afterwards may carry RSV1.
+DECLINE_OFFERS = [
+    "permessage-deflate; client_max_window_bits=7", "permessage-deflate; client_max_window_bits=16",
+    "permessage-deflate; client_max_window_bits=abc", "permessage-deflate; client_max_window_bits=0",
+    "permessage-deflate; server_max_window_bits=7", "permessage-deflate; server_max_window_bits=16",
+    "permessage-deflate; server_max_window_bits=abc", "permessage-deflate; server_max_window_bits=8",
+    "permessage-deflate; foo=1", "permessage-deflate; bar",
+    "permessage-deflate; client_max_window_bits=10; client_max_window_bits=7",
+    "permessage-deflate; client_no_context_takeover; client_max_window_bits=16",
+    "permessage-deflate; server_no_context_takeover; client_max_window_bits=7",
+    "permessage-deflate; client_max_window_bits=7, permessage-deflate; client_max_window_bits=16",
+    "permessage-deflate; client_max_window_bits=7, permessage-deflate; server_max_window_bits=10",
+    "permessage-deflate; foo=1, permessage-deflate",
+    "x-webkit-deflate-frame",
+]
+
+
 BASES = [
     b"hello world, ",
     b"The quick brown fox jumps over the lazy dog. ",
@@ -167,6 +194,8 @@ case_s = st.fixed_dictionaries({
     # websocket_max_message_size / max_message_size of the Tornado side(s).  When set, every rep/raw message is sized
     # limit-k with k = drawn length mod 131, i.e. legal but within a control frame's reach (125 bytes) of the limit
     "limit": st.sampled_from([None, None, None, 300, 1024, 4096]),
+    # ref_to_server only: the reference client sends this (to be declined) offer instead of a usable one
+    "decline": st.sampled_from([None] * (3 * len(DECLINE_OFFERS)) + DECLINE_OFFERS),
 })
 wbits8_case_s = st.fixed_dictionaries({
     "setup": st.sampled_from(["ref_to_server", "ref_to_client"]),
@@ -356,6 +385,7 @@ def run_ref(ctx, case):
     labels = {"setup_" + setup, "dir_to_server" if to_server else "dir_to_client"}
     d = case["deflate"]
     limit = case.get("limit")
+    decline = case.get("decline") if to_server else None
     ops = budget_ops(near_limit_ops(case["ops"], limit))
     out = {"nontrivial": False}
     if limit is not None:
@@ -365,9 +395,9 @@ def run_ref(ctx, case):
         rec = H.Recorder()
         # ---- real handshake
         if to_server:
-            app = H.make_app(rec, compression=case["options"] if d is not None else None,
+            app = H.make_app(rec, compression=case["options"] if (d is not None or decline) else None,
                              settings={"websocket_max_message_size": limit} if limit is not None else None)
-            peer = H.RefClient(app, ext=H.offer_string(**deflate_kw(d)) if d is not None else None)
+            peer = H.RefClient(app, ext=decline or (H.offer_string(**deflate_kw(d)) if d is not None else None))
             ok = await peer.handshake(H.segments(len(peer.request), case["hs_segs"], cap=3, bulk=1 << 20))
             if not ok:
                 return ctx.fail("C14.handshake_failed", {"wire": peer.session.wire[:300]})
@@ -395,7 +425,9 @@ def run_ref(ctx, case):
             ref_role, tor_role = "server", "client"
         dp = peer.deflate
         out["deflate"] = dp.as_dict() if dp else None
-        if d is not None and dp is None:
+        if decline:
+            labels.add("declined_offer" if dp is None else "declined_then_accepted_offer")
+        elif d is not None and dp is None:
             return ctx.fail("C14.deflate_not_negotiated", {"offer/response": deflate_kw(d)})
         if dp is not None:
             if dp.server_nct or dp.client_nct:
@@ -672,12 +704,26 @@ def limit_grid():
                                    "segs": [9, 200], "hs_segs": [], "masks": [b"\x0f\x1e\x2d\x3c"], "callback_mode": k % 2 == 1, "seed": b"l"}
 
 
-PARTS = {"main": run_case, "wbits8": run_wbits8, "deflate_grid": run_case, "limit_grid": run_case}
+def decline_grid():
+    """Deterministic: every to-be-declined offer against a server with compression enabled (two option sets), then an
+    ordinary exchange in both directions judged by the reference peer under whatever the 101 response agreed."""
+    def msg(content, binary):
+        return {"binary": binary, "content": content, "cuts": [], "gaps": [], "every_gap": False, "compress": True, "flush": "sync"}
+    ops = [("out", msg(("rep", 200, 0), False)), ("in", msg(("rep", 300, 1), False)), ("out", msg(("rep", 3000, 4), True)),
+           ("ping_in", b"dg"), ("out", msg(("lit", "héllo ✓"), False)), ("in", msg(("rep", 126, 0), True))]
+    for offer in DECLINE_OFFERS:
+        for options in ({}, {"compression_level": 9, "mem_level": 9}):
+            yield {"setup": "ref_to_server", "deflate": None, "options": options, "ref": (6, 8), "limit": None, "decline": offer, "ops": ops,
+                   "segs": [11], "hs_segs": [], "masks": [b"\x5a\x5a\xa5\xa5"], "callback_mode": True, "seed": b"d"}
+
+
+PARTS = {"main": run_case, "wbits8": run_wbits8, "deflate_grid": run_case, "limit_grid": run_case, "decline_grid": run_case}
 
 
 def main(ctx):
     ctx.run_replays(PARTS)
     ctx.enumerate(deflate_grid(), run_case, name="deflate_grid")
     ctx.enumerate(limit_grid(), run_case, name="limit_grid")
+    ctx.enumerate(decline_grid(), run_case, name="decline_grid")
     ctx.explore(case_s, run_case, ctx.n(1000, 20000), name="main")
     ctx.explore(wbits8_case_s, run_wbits8, ctx.n(16, 200), name="wbits8")
